@@ -38,10 +38,12 @@ class Proc:
 
 
 class NetWorld:
-    def __init__(self, seed=0, delay_ms=(0, 0), pub_hwm=20, push_hwm=50, fifo=True):
+    def __init__(self, seed=0, delay_ms=(0, 0), pub_hwm=20, push_hwm=50, fifo=True, sub_join_ms=(0, 0), bandwidth_mbps=None):
         self.rng = random.Random(seed)
         self.now = 10 ** 12
         self.delay_ms = delay_ms
+        self.bandwidth = bandwidth_mbps  # link speed in MB/s (None = infinite): a message stays in the SENDING socket's queue for size/bandwidth
+        self.sub_join_ms = sub_join_ms   # slow joiner: a SUB hears a PUB only this long after connect / after the PUB (re)bound
         self.pub_hwm, self.push_hwm = pub_hwm, push_hwm
         self.lock = threading.Condition()
         self.procs = {}
@@ -78,15 +80,24 @@ class NetWorld:
     def on_subscribe(self, s, p):
         pass
 
+    def _join_delay(self):
+        lo, hi = self.sub_join_ms
+        return int(self.rng.uniform(lo, hi) * 1_000_000) if hi > 0 else 0
+
     def on_bind(self, s, addr):
         k = addr_key(addr)
         self.binds.setdefault(k, {})[s.type] = s
         s.key = k
+        if s.type == simzmq.PUB:          # a (re)started publisher: the subscribers' connections come back one by one
+            for sub in self.subs.get(k, []):
+                sub.joined_at = self.now + self._join_delay()
 
     def on_connect(self, s, addr):
         k = addr_key(addr)
         s.key = k
         (self.subs if s.type == simzmq.SUB else self.pushes).setdefault(k, []).append(s)
+        if s.type == simzmq.SUB:
+            s.joined_at = self.now + self._join_delay()
 
     def on_close(self, s):
         k = getattr(s, 'key', None)
@@ -97,16 +108,29 @@ class NetWorld:
         for table in (self.subs, self.pushes):
             if s in table.get(k, []):
                 table[k].remove(s)
+        if s.type in (simzmq.PUB, simzmq.PUSH) and s.opts.get(simzmq.LINGER) == 0:
+            # LINGER=0: what is still in the socket's own queue (not yet handed to the network: only possible on a link of
+            # finite bandwidth) is thrown away at close(); what already left travels on
+            keep = [x for x in self.inflight if not (x[4] is s and x[5] > self.now)]
+            if len(keep) != len(self.inflight):
+                self.stats['dropped_linger'] = self.stats.get('dropped_linger', 0) + len(self.inflight) - len(keep)
+                self.inflight = keep
+                heapq.heapify(self.inflight)
 
     def _delay(self):
         lo, hi = self.delay_ms
         return int(self.rng.uniform(lo, hi) * 1_000_000) if hi > 0 else 0
 
     def _send_to(self, src, dst, parts):
-        t = self.now + self._delay()
+        leave = self.now
+        if self.bandwidth:
+            size = sum(len(p0) for p0 in parts)
+            leave = max(getattr(src, 'tx_free_at', 0), self.now) + int(size / (self.bandwidth * 1e6) * 1e9)
+            src.tx_free_at = leave
+        t = leave + self._delay()
         t = max(t, self.last_pair.get((src.n, dst.n), 0))
         self.last_pair[(src.n, dst.n)] = t
-        heapq.heappush(self.inflight, (t, next(self.seq), dst, parts))
+        heapq.heappush(self.inflight, (t, next(self.seq), dst, parts, src, leave))
 
     def on_send(self, sock, parts, flags):
         if getattr(sock, 'dead', False):
@@ -115,6 +139,9 @@ class NetWorld:
         if sock.type == simzmq.PUB:
             self.stats['pub'] += 1
             for sub in list(self.subs.get(sock.key, [])):
+                if getattr(sub, 'joined_at', 0) > self.now:
+                    self.stats['dropped_joining'] = self.stats.get('dropped_joining', 0) + 1
+                    continue
                 if simzmq.prefix_match(sub.subs, parts[0]):
                     self._send_to(sock, sub, parts)
         elif sock.type == simzmq.PUSH:
@@ -137,7 +164,7 @@ class NetWorld:
 
     def _deliver_due(self):
         while self.inflight and self.inflight[0][0] <= self.now:
-            _, _, dst, parts = heapq.heappop(self.inflight)
+            _, _, dst, parts, _src, _leave = heapq.heappop(self.inflight)
             if dst.closed or getattr(dst, 'dead', False):
                 self.stats['dropped_dead'] += 1
                 continue
